@@ -112,6 +112,20 @@ func plantKindsAndConstants(p *idl.Program) {
 	for k, d := range decls {
 		insertDecl(root, at+k, d)
 	}
+	// void methods without exceptions in both spellings (zqEmpty and zqRet are
+	// rendered with `throws ()`), and one that throws
+	at = len(root.Decls)
+	for i, d := range root.Decls {
+		if d.Scope != nil {
+			at = i
+			break
+		}
+	}
+	insertDecl(root, at, &idl.Decl{Service: &idl.Service{Name: "ZqThrows", Methods: []*idl.Method{
+		{Name: "zqPlain"}, {Name: "zqEmpty", Args: []*idl.Field{{ID: 1, Name: "zqArg", Type: idl.T("i32")}}},
+		{Name: "zqOne", Throws: []*idl.Field{{ID: 1, Name: "zqErr", Type: idl.T("ZqKindError")}}},
+		{Name: "zqRet", Ret: idl.T("i32")},
+	}}})
 }
 
 // plantPrefixes gives the root scopes whose prefix spells a variable's name
@@ -210,6 +224,8 @@ func transitiveOp(e *edit) bool {
 		return strings.Contains(e.Site, "service Zq")
 	case "drop-include":
 		return true
+	case "toggle-empty-throws", "add-first-exception-to-void", "remove-all-exceptions-of-void", "add-exception-end":
+		return strings.Contains(e.Site, "service Zq")
 	case "change-kind", "change-const-type":
 		return strings.Contains(e.Site, " Zq") || strings.Contains(e.Site, "const ZQ_")
 	case "change-prefix", "rename-prefix-variable":
